@@ -3,6 +3,7 @@ CONSTANTS
   Slice = "grants"
   Big = FALSE
   MaxEdits = 0
+  MaxCo = 0
 INVARIANT Inv_ScanIsFirstApplicable
 INVARIANT Inv_UnprotectedGranted
 INVARIANT Inv_NoGrantNoProtectedAccess
@@ -12,6 +13,8 @@ INVARIANT Inv_AcceptedOnlyAsSigned
 INVARIANT Inv_ForgedContentNeverAdmissible
 INVARIANT Inv_UnsignedFieldsHaveNoSay
 INVARIANT Inv_ChainAcceptsOnlyAdmissible
+INVARIANT Inv_OneSignerInfoCarriesBoth
+INVARIANT Inv_ZoneIsNotation
 INVARIANT TablePrinted
 ACTION_CONSTRAINT GenEdge
 CHECK_DEADLOCK FALSE
